@@ -709,8 +709,31 @@ const NEAR_MISSES: &[&str] = &[
 ];
 
 fn gen_id_string(g: &mut Gen) -> (String, &'static str) {
-    match g.weighted(&[2, 8, 3, 1, 1]) {
+    match g.weighted(&[2, 8, 3, 1, 1, 2, 2]) {
         0 => (ref_print(&gen_id(g)), "valid text"),
+        5 => {
+            // several edits in a row (single edits cannot reach texts that need two coordinated changes)
+            let mut s = ref_print(&gen_id(g));
+            let n = 2 + g.below(3);
+            for _ in 0..n {
+                s = mutate_text(g, &s, ID_ODD).0;
+            }
+            (s, "several edits")
+        }
+        6 => {
+            // length-preserving substitutions inside a valid text: k characters of the body replaced by
+            // separators / odd characters, so structural checks (positions, lengths) still pass
+            let base = ref_print(&gen_id(g));
+            let mut chars: Vec<char> = base.chars().collect();
+            if chars.len() > 2 {
+                let k = 1 + g.below(4) as usize;
+                for _ in 0..k {
+                    let pos = 1 + g.index(chars.len() - 2);
+                    chars[pos] = *g.pick(&['-', '-', '-', '_', ':', '#', 'g', 'G', ' ', '0', 'f', 'é', '{', '}', '<', '[']);
+                }
+            }
+            (chars.into_iter().collect(), "in-place substitutions")
+        }
         1 => {
             let base = ref_print(&gen_id(g));
             let (s, how) = mutate_text(g, &base, ID_ODD);
